@@ -346,6 +346,10 @@ func c03Queries(rng *rand.Rand, ds *gen.Dataset, n int) []seqQuery {
 		default:
 			e = a // a plain sub-expression or leaf again (detects in-place mutation by operators)
 		}
+		if rng.Intn(15) == 0 {
+			// a column that occurs in no row somewhere in the tree: must fail, also when parts of it are cached
+			e = gen.WithUnknown(rng, oracle.And(a, e, b), ds)
+		}
 		q := seqQuery{e: e}
 		if rng.Intn(4) == 0 {
 			q.gb = gen.GroupBy(rng, ds, 1+rng.Intn(3), 4000)
